@@ -4,6 +4,8 @@ pub mod golden;
 pub mod model;
 pub mod report;
 pub mod util;
+pub mod callargs;
+pub mod bsys;
 pub mod xs;
 pub mod checks;
 pub mod replay;
